@@ -162,7 +162,9 @@ class Reporter:
             mine = self.known_hits.setdefault(k, dict(count=0, what=v["what"]))
             mine["count"] += v["count"]
         for k, v in part["extra"].items():
-            if isinstance(v, (int, float)) and not isinstance(v, bool):
+            if k.startswith("max_"):
+                self.extra[k] = max(self.extra.get(k, 0), v)
+            elif isinstance(v, (int, float)) and not isinstance(v, bool):
                 self.extra[k] = self.extra.get(k, 0) + v
             elif isinstance(v, list):
                 self.extra.setdefault(k, [])
